@@ -576,6 +576,9 @@ func replayCases(c *ctx, e *ctlEnv, f *os.File) {
 	var lines []string
 	for sc.Scan() {
 		// a replay file carries one case per line, its C and E lines joined by " ;; "
+		if strings.HasPrefix(sc.Text(), "#") {
+			continue // header of a replay file (may quote a shortened case)
+		}
 		for _, l := range strings.Split(sc.Text(), " ;; ") {
 			lines = append(lines, strings.TrimSpace(l))
 		}
